@@ -32,8 +32,8 @@ def build(repo, cache, debug=False):
     return os.path.join(tdir, 'debug' if debug else 'release', 'fill_probe'), ''
 
 
-def run_probe(binary, limit=None):
-    r = subprocess.run([binary] + ([str(limit)] if limit else []), capture_output=True, text=True, timeout=1800)
+def run_probe(binary, limit=None, start=0):
+    r = subprocess.run([binary, str(limit) if limit else str(1 << 62), str(start)], capture_output=True, text=True, timeout=1800)
     recs = []
     for line in r.stdout.split('\n'):
         f = line.split()
@@ -42,11 +42,11 @@ def run_probe(binary, limit=None):
     return recs, r.returncode
 
 
-def model_growth(coqdir, cache):
+def model_growth(coqdir, cache, start=0):
     path = os.path.join(cache, 'work', 'fill_growth.v')
     os.makedirs(os.path.dirname(path), exist_ok=True)
     open(path, 'w').write('From Coq Require Import NArith List.\nFrom Gecs Require Import Prim ExtrStorage Storage.\n'
-                          'Eval vm_compute in (growth_seq 64 0%N).\n')
+                          'Eval vm_compute in (growth_seq 64 %d%%N).\n' % start)
     q = '-Q gen Gecs -Q model Gecs -Q spec Gecs -Q proofs Gecs -Q props Gecs'
     r = subprocess.run('cd %s && coqc -noglob %s -o %s %s' % (coqdir, q, path + 'o', path), shell=True, capture_output=True, text=True)
     if r.returncode != 0:
@@ -82,27 +82,34 @@ def oracle(recs):
 
 
 def run(repo, cache, coqdir, debug=False):
-    out = dict(error=None, violations=[], correspondence=None, records=0, grows=[], model=[], entities=0)
+    out = dict(error=None, violations=[], correspondence=None, records=0, grows=[], model=[], entities=0, tail=[])
     binary, err = build(repo, cache, debug)
     if binary is None:
         out['error'] = err
         return out
-    recs, rc = run_probe(binary)
-    out['records'] = len(recs)
-    out['grows'] = [tuple(v) for k, v in recs if k == 'grow']
-    out['entities'] = max([v[0] for k, v in recs if k in ('panic', 'bad', 'limit')] + [0])
-    out['tail'] = [' '.join([k] + [str(x) for x in v]) for k, v in recs[-6:]]
-    out['violations'] = [dict(reason=m, record=' '.join([r[0]] + [str(x) for x in r[1]])) for m, r in oracle(recs)]
-    model, err = model_growth(coqdir, cache)
-    if model is None:
-        out['error'] = 'coqc failed on growth_seq: ' + err
-        return out
-    out['model'] = model
-    impl = [(v[1], v[2]) for v in out['grows']]
-    if impl != model:
-        first = next((i for i, (a, b) in enumerate(zip(impl, model)) if a != b), min(len(impl), len(model)))
-        out['correspondence'] = ('growth sequence differs from growth_seq (translated formula) at step %d: implementation %s, model %s'
-                                 % (first, impl[first] if first < len(impl) else None, model[first] if first < len(model) else None))
+    for start in (0, LIMIT - 1, (LIMIT >> 1) - 1):
+        recs, rc = run_probe(binary, start=start)
+        out['records'] += len(recs)
+        grows = [tuple(v) for k, v in recs if k == 'grow']
+        if start == 0:
+            out['grows'] = grows
+            out['tail'] = [' '.join([k] + [str(x) for x in v]) for k, v in recs[-6:]]
+        out['entities'] += max([v[0] for k, v in recs if k in ('panic', 'bad', 'limit')] + [0])
+        st = [v for k, v in recs if k == 'start']
+        if st and st[0][1] < st[0][0]:
+            out['violations'].append(dict(reason='with_capacity(%d) gave capacity %d' % tuple(st[0]), record='start %d %d' % tuple(st[0])))
+        out['violations'] += [dict(reason=('[start capacity %d] ' % start) + m, record=' '.join([r[0]] + [str(x) for x in r[1]])) for m, r in oracle(recs)]
+        model, err = model_growth(coqdir, cache, start)
+        if model is None:
+            out['error'] = 'coqc failed on growth_seq: ' + err
+            return out
+        if start == 0:
+            out['model'] = model
+        impl = [(v[1], v[2]) for v in grows]
+        if impl != model and not out['correspondence']:
+            first = next((i for i, (a, b) in enumerate(zip(impl, model)) if a != b), min(len(impl), len(model)))
+            out['correspondence'] = ('growth sequence from capacity %d differs from growth_seq (translated formula) at step %d: implementation %s, model %s'
+                                     % (start, first, impl[first] if first < len(impl) else None, model[first] if first < len(model) else None))
     return out
 
 
